@@ -4,7 +4,7 @@
 VERUS_TRUST = [
     'A3: vstd specifications of Vec, HashMap, slices, arrays (assumed to describe std)',
     'A4: Z3 4.12 and the Verus VC generator / Rust front end',
-    'extraction: tools/weave.py copies item text verbatim from /repo/src and applies only the desugaring rules R0-R10 of DESIGN.md 2.2 (applications counted per function in functions_under_contract)',
+    'extraction: tools/weave.py copies item text verbatim from /repo/src and applies only the desugaring rules R0-R21 and lift options of DESIGN.md 2.2 (applications counted per function in functions_under_contract)',
 ]
 
 PROPS = {
@@ -21,7 +21,7 @@ PROPS = {
               'de-duplication on or off. remove_unused_gates/build are covered only by a bounded differential search on the real '
               'code (labelled bounded, not counted as proved).',
         note='Trusted: vstd specs of Vec/HashMap; derived Hash/Eq of BuilderGate obey the key model (admit); gate_counter+1 does not '
-             'overflow usize (assume in push_gate); extraction rules R0-R3; Z3/Verus. Unverified: pruning + renumbering (bounded '
+             'overflow usize (assume in push_gate); extraction rules R0-R3 (builder unit); Z3/Verus. Unverified: pruning + renumbering (bounded '
              'search only), composition over compile.',
         title='optimisations never change the computed function (gate emission: every push_* returns a wire '
               'computing the literal operation, for every builder state and input assignment; dedup on and off)',
